@@ -528,7 +528,7 @@ boundarySearch:
 	}
 
 	// remove entries of deleted files
-	res.Versions = res.Versions[purgeBoundary:]
+	res.Versions = res.Versions[:purgeBoundary]
 }
 
 // SigningMetadata returns the metadata to be included in signatures.
